@@ -84,6 +84,56 @@ pub fn cut_events<F: Fam>(out: &mut Out, rng: &mut Rng, p: &F::Packet, all: bool
     out.ev(ev);
 }
 
+/// the same for a valid encoding that the library's own encoder never produces (another MQTT stack's legal spelling:
+/// short forms spelled out, another property order, a padded remaining length or property length): every strict prefix
+/// is incomplete
+fn cut_spelled<F: Fam>(out: &mut Out, rng: &mut Rng, p: &F::Packet) {
+    let Some(e) = enc::<F>(p).1 else { return };
+    if e.len() > 300 {
+        return;
+    }
+    let Some(fr) = crate::tokens::tokenize(F::NAME, &e) else { return };
+    let mut variants: Vec<(String, Vec<u8>)> = crate::tokens::spellings(&fr);
+    // remaining length padded to 2, 3 and 4 bytes
+    let body = &e[1 + crate::topic::varint(e.len()).len().min(4).min(e.len() - 1)..];
+    let _ = body;
+    let mut hd = 1usize;
+    while e[hd] & 0x80 != 0 {
+        hd += 1;
+    }
+    hd += 1;
+    let rl = e.len() - hd;
+    for w in 2..=4usize {
+        let mut l = crate::topic::varint(rl);
+        if l.len() >= w {
+            continue;
+        }
+        while l.len() < w {
+            let last = l.len() - 1;
+            l[last] |= 0x80;
+            l.push(0);
+        }
+        let mut v = vec![e[0]];
+        v.extend(l);
+        v.extend_from_slice(&e[hd..]);
+        variants.push((format!("remaining length in {w} bytes"), v));
+    }
+    for v in crate::tokens::nonminimal_proplen(&fr) {
+        variants.push(("padded property length".to_string(), v));
+    }
+    for (name, b) in variants {
+        let full = dec_block::<F>(&b);
+        let n = b.len();
+        let mut cuts = Vec::with_capacity(n);
+        for k in 0..n {
+            let chunk = if rng.bool() { usize::MAX } else { 1 + rng.below(3) as usize };
+            cuts.push(json!([k, short(&dec_block::<F>(&b[..k])), short(&dec_async::<F>(&b[..k], chunk)), short(&dec_poll::<F>(&b[..k], chunk))]));
+        }
+        out.ev(json!({"ev": "CutSpelled", "fam": F::NAME, "spelling": name, "bytes": jbytes(&b), "len": n,
+                      "full_block": full, "full_async": dec_async::<F>(&b, usize::MAX), "cuts": cuts}));
+    }
+}
+
 pub fn record_cut(out: &mut Out, tier: &str, seed: u64) {
     let n = if tier == "thorough" { 12000 } else { 500 };
     let mut rng = Rng::new(seed ^ 0xC07);
@@ -92,11 +142,17 @@ pub fn record_cut(out: &mut Out, tier: &str, seed: u64) {
     for i in 0..n {
         let p = V3::gen(&mut rng, &mut b, t3[i % t3.len()]);
         cut_events::<V3>(out, &mut rng, &p, false);
+        if i % 4 == 0 {
+            cut_spelled::<V3>(out, &mut rng, &p);
+        }
     }
     let t5 = V5::types();
     for i in 0..2 * n {
         let p = V5::gen(&mut rng, &mut b, t5[i % t5.len()]);
         cut_events::<V5>(out, &mut rng, &p, false);
+        if i % 4 == 0 {
+            cut_spelled::<V5>(out, &mut rng, &p);
+        }
     }
     // deterministic large shapes: fields of the maximal size, payloads on both sides of 64 KiB and of 1 MiB
     // (a reader that switches strategy by size), cut at sampled positions incl. inside the payload
